@@ -89,7 +89,7 @@ pub fn run(ctx: &Ctx) -> Report {
         "model_checking",
         "every program of the twelve C02 value-dependent families (all item sequences up to a length), the skeleton grid (chains 0..12 with/without oscillator), asm-block macros with local labels and #assert programs, each assembled under a row of budgets; success at N must recur identically (bits, symbols) at every larger budget, reported passes <= budget, failures clean. Non-trivial = program whose outcome differs between at least two budgets; states = distinct (program, outcome row), transitions = passes executed.",
     );
-    let budgets: Vec<usize> = if ctx.thorough { (1..=31).collect() } else { vec![1, 2, 3, 4, 5, 10, 11, 30] };
+    let budgets: Vec<usize> = if ctx.thorough { vec![1, 2, 3, 4, 5, 6, 7, 8, 9, 10, 11, 12, 20, 30, 31] } else { vec![1, 2, 3, 4, 5, 10, 11, 30] };
     for f in c02::families() {
         let k = f.items.len() as u64;
         let maxlen = f.maxlen(ctx.thorough);
